@@ -578,6 +578,12 @@ type Lemma struct {
 	Requires []Clause
 	Steps    []LemmaStep
 	Props    []string
+	// induction lemma over spec functions: proved by induction on the integer parameter Induction (base: <= 0 without
+	// hypothesis, step: the statement at Induction-1 as hypothesis); once proved by its own unit it is assumed, with Patterns
+	// as triggers, wherever one of the spec functions of its patterns is applied
+	Induction string
+	Patterns  []*SExpr
+	Index     int
 }
 
 type Monitor struct {
@@ -615,6 +621,7 @@ type ContractFile struct {
 	SeqFuncs  map[string]*Contract // "func@seq T": the contract used when a target is verified in the sequential reading
 	SpecFuncs map[string]*SpecFunc
 	Lemmas    []*Lemma
+	Axioms    []Clause // file-level axioms over spec functions (assumptions, listed in the evidence)
 	Monitors  []*Monitor
 	Types     map[string]*TypeSpec
 	Onces     []*OnceSpec
@@ -650,7 +657,7 @@ func specLines(f *ast.File, fset *token.FileSet) []struct {
 }
 
 var clauseKeywords = []string{"suppose", "assume-ensures", "stable", "iterates-requires", "iterates", "assume-result", "seq", "ghost-var", "requires-captured", "on-entry", "use", "requires", "ensures", "modifies", "loop", "inline", "pure", "trusted", "ghost-param", "after-call", "on-call", "on-send", "at", "decreases",
-	"props", "let", "assert", "guards", "invariant", "ghost", "field", "holds", "unit", "recv", "call"}
+	"props", "let", "assert", "induction", "pattern", "guards", "invariant", "ghost", "field", "holds", "unit", "recv", "call"}
 
 func stripComment(s string) string {
 	// strip trailing "// ..." comments outside string literals
@@ -683,7 +690,7 @@ func parseContractFile(pkg string, path string, f *ast.File, fset *token.FileSet
 		}
 		first := strings.Fields(trim)[0]
 		first = strings.TrimSuffix(first, ":")
-		isHeader := first == "func" || first == "func@seq" || first == "spec" || first == "lemma" || first == "monitor" || first == "type" || first == "once"
+		isHeader := first == "func" || first == "func@seq" || first == "spec" || first == "lemma" || first == "axiom" || first == "monitor" || first == "type" || first == "once"
 		isKw := false
 		for _, k := range clauseKeywords {
 			if first == k {
@@ -766,8 +773,28 @@ func parseContractFile(pkg string, path string, f *ast.File, fset *token.FileSet
 				errf(it.line, "%v", err)
 				continue
 			}
-			curLemma = &Lemma{Name: name, Pkg: pkg, Params: params}
+			curLemma = &Lemma{Name: name, Pkg: pkg, Params: params, Index: len(cf.Lemmas)}
 			cf.Lemmas = append(cf.Lemmas, curLemma)
+		case "axiom":
+			reset()
+			cf.Axioms = append(cf.Axioms, namedClause(it.line, rest))
+		case "induction":
+			if curLemma == nil {
+				errf(it.line, "induction outside lemma")
+				continue
+			}
+			curLemma.Induction = strings.TrimSpace(rest)
+		case "pattern":
+			if curLemma == nil {
+				errf(it.line, "pattern outside lemma")
+				continue
+			}
+			pe := parse(it.line, "patternlist("+strings.TrimSpace(rest)+")")
+			if pe.Op != "call" {
+				errf(it.line, "pattern needs a list of applications")
+				continue
+			}
+			curLemma.Patterns = append(curLemma.Patterns, pe.Args...)
 		case "monitor":
 			reset()
 			// monitor (*Box).lock
